@@ -520,6 +520,64 @@ struct FnEmit
                         }
                     }
                 }
+                // memset(&s.f_k, 0, L) over a run of whole fields (constructors zeroing several pointer members at once): typed
+                // zeroing per field - a byte-level memset over pointer fields degrades CBMC's points-to sets for them
+                if (isSet && L && !getenv("VERIF_NO_TYPED_MEMSET"))
+                    if (auto* V = dyn_cast<ConstantInt>(S); V && V->isZero())
+                        if (auto* G = dyn_cast<GEPOperator>(D); G && G->hasAllConstantIndices() && G->getNumIndices() >= 2)
+                        {
+                            // parent aggregate type of the last index
+                            Type* cur = G->getSourceElementType();
+                            auto it = G->idx_begin();
+                            ++it;
+                            Type* parent = nullptr;
+                            unsigned lastIdx = 0;
+                            for (; it != G->idx_end(); ++it)
+                            {
+                                parent = cur;
+                                lastIdx = (unsigned) cast<ConstantInt>(*it)->getZExtValue();
+                                if (auto* ST = dyn_cast<StructType>(cur)) cur = ST->getElementType(lastIdx);
+                                else if (cur->isArrayTy())
+                                    cur = cur->getArrayElementType();
+                                else
+                                {
+                                    parent = nullptr;
+                                    break;
+                                }
+                            }
+                            auto* PS = parent ? dyn_cast<StructType>(parent) : nullptr;
+                            std::string ge = C.gepExpr(G, [&](Value* X) { return val(X); });
+                            std::string suffix = ".f" + std::to_string(lastIdx) + ")";
+                            if (PS && !C.isPtrBuf(PS, lastIdx) && ge.size() > suffix.size() + 2 && ge.compare(0, 2, "(&") == 0 &&
+                                ge.compare(ge.size() - suffix.size(), suffix.size(), suffix) == 0)
+                            {
+                                std::string prefix = ge.substr(2, ge.size() - 2 - suffix.size());    // lvalue of the parent struct
+                                auto* SL = C.DL.getStructLayout(PS);
+                                uint64_t base = SL->getElementOffset(lastIdx), remaining = L->getZExtValue();
+                                unsigned j = lastIdx;
+                                std::string out;
+                                bool ok = true;
+                                while (remaining > 0 && j < PS->getNumElements())
+                                {
+                                    Type* FT = PS->getElementType(j);
+                                    uint64_t off = SL->getElementOffset(j) - base, sz = C.DL.getTypeAllocSize(FT);
+                                    uint64_t covered = L->getZExtValue() - remaining;
+                                    if (off != covered) { ok = (off > covered); if (!ok) break; remaining -= std::min(remaining, off - covered); if (!remaining) break; }    // padding
+                                    if (sz == 0) { ++j; continue; }
+                                    if (sz > remaining || C.isPtrBuf(PS, j)) break;
+                                    out += "  " + prefix + ".f" + std::to_string(j) + " = " + C.zeroOf(FT) + ";\n";
+                                    remaining -= sz;
+                                    ++j;
+                                }
+                                if (ok && !out.empty() && !(remaining > 0 && j >= PS->getNumElements()))
+                                {
+                                    os << out;
+                                    if (remaining > 0)
+                                        os << "  verif_memset((void*)(&" << prefix << ".f" << j << "), 0, " << remaining << "ULL);\n";
+                                    return true;
+                                }
+                            }
+                        }
                 if (isSet)
                     os << "  verif_memset((void*)" << a(0) << ", " << a(1) << ", " << a(2) << ");\n";
                 else
